@@ -11,6 +11,7 @@ b (added)  iterates fed back as seeds lie exactly on the section
 c (added)  the map service generates the requested section whatever the generator was configured for before (model generator)
 d (added)  the direction quantity does not vanish on the section at quadratic order
 c-config (round 4)  config -> problem -> request chain and the seeding closures; compute() returns the payload of its own key
+b (round 5)  residuals of 1e-9 in the section coordinate are set to exactly 0;  c-config: a configuration with integration.forward = -1 is rejected
 """
 from __future__ import annotations
 
@@ -49,6 +50,7 @@ def run(tier):
     _b_gather(chk)
     _c_service_section(chk)
     _c_config_chain(chk)
+    _c_direction_flag(chk)
     # a cached map is the one for the requested section and options
     from . import c20
     from .common import Relabel
@@ -159,7 +161,9 @@ def _a_engine(chk):
         ov = {"ThreadPoolExecutor": lambda ip_, a, k: pool, "as_completed": lambda ip_, a, k: list(reversed(a[0])),
               "CenterManifoldBackendRequest": lambda ip_, a, k: SymObj(ClassRef(*ri.find_def("hiten.algorithms.poincare.centermanifold.types", "CenterManifoldBackendRequest")), dict(k), "req"),
               "CenterManifoldBackendResponse": lambda ip_, a, k: SymObj(None, dict(k), "resp")}
-        ip = Interp(overrides=ov, max_depth=30)
+        # generic (symbolic) backend states are not "close to zero": a tolerance predicate on them is decided False, which is the path real data
+        # take (the concrete residual case is decided on enforce_section_coordinate itself, below)
+        ip = Interp(overrides=ov, max_depth=30, decide=lambda c: (False if ("allclose" in str(c) or "isclose" in str(c)) else None))
         try:
             resp = ip.apply(ip.getattr(eng, "solve"), [problem], {})
         except OutsideFragment as exc:
@@ -357,6 +361,34 @@ def _c_config_chain(chk):
                   sample="solve_missing_coord_fn / find_turning_fn: h0 = energy, H_blocks, clmo_table of this manifold")
 
 
+def _c_direction_flag(chk):
+    """The integration configuration of the map has a direction flag (IntegrationConfig.forward, validated to be +-1).  The map kernels only step forward
+    (t_vals = [0, +dt]); a configuration that asks for -1 must therefore be REJECTED when the problem is built (or the flag must reach the backend request and be
+    honoured) - answering it with the forward map is a silently wrong result."""
+    IFM = "hiten.algorithms.poincare.centermanifold.interfaces"
+    imod, icls = ri.find_def(IFM, "_CenterManifoldInterface")
+    hamsys = SymObj(None, {"jac_H": sp.Symbol("JAC"), "poly_H": lambda: sp.Symbol("HB"), "clmo_table": sp.Symbol("CLMO")}, "hamsys")
+    dom = SymObj(None, {"dynamics": SymObj(None, {"hamsys": hamsys}, "dyn"), "energy": sp.Symbol("E", real=True)}, "cm")
+    cfg = SymObj(None, {"section_coord": "q3", "integration": SymObj(None, {"method": "fixed", "forward": -1}, "icfg")}, "config")
+    opts = SymObj(None, {"integration": SymObj(None, {"dt": sp.Symbol("DT"), "max_steps": 10, "order": 4, "c_omega_heuristic": 20}, "iopt"),
+                         "iteration": SymObj(None, {"n_iter": 2}, "it"), "workers": SymObj(None, {"n_workers": 1}, "w")}, "options")
+    cap = {}
+    ip = Interp(overrides={"CenterManifoldBackendRequest": lambda ip_, a, k: (cap.update(k), SymObj(None, dict(k), "request"))[1], "_BackendCall": lambda ip_, a, k: SymObj(None, dict(k), "call"),
+                           "_CenterManifoldMapProblem": lambda ip_, a, k: SymObj(None, dict(k), "problem")})
+    iface = SymObj(ClassRef(imod, icls), {}, "interface")
+    raised = False
+    try:
+        prob = ip.apply(ip.getattr(iface, "create_problem"), [], {"domain_obj": dom, "config": cfg, "options": opts})
+        ip.apply(ip.getattr(iface, "to_backend_inputs"), [prob], {})
+    except KpeRaise:
+        raised = True
+    except OutsideFragment as exc:
+        raise AnalysisError(f"centre-manifold map direction flag outside fragment: {exc}")
+    chk.check(raised or cap.get("forward") == -1, "C14.c-config", f"{IFM}::_CenterManifoldInterface.create_problem[forward=-1]",
+              f"a map configuration with integration.forward = -1 is accepted and the backend request carries forward = {cap.get('forward', 'nothing')}: the forward map is "
+              f"computed and returned as if it were the backward one", sample="forward = -1: rejected (or handed to the backend)")
+
+
 def _d_crossing(chk):
     n_dof = 3
     so = to_obj_array([sp.Symbol(f"o{i}", real=True) for i in range(6)])
@@ -461,7 +493,18 @@ def _bc_interface(chk):
     idx = {"q2": 0, "p2": 1, "q3": 2, "p3": 3}
     plane = {"q3": ("q2", "p2"), "p3": ("q2", "p2"), "q2": ("q3", "p3"), "p2": ("q3", "p3")}
     for sec in ("q3", "p3", "q2", "p2"):
-        ip = Interp()
+        # the crossing refinement leaves residuals of 1e-9..1e-6 in the section coordinate: exactly those must become 0 (a "close enough" shortcut feeds a state that
+        # is 1e-9 BELOW the section back as a seed, and the next integration step reports an immediate spurious return)
+        resid = to_obj_array([[R(1, 3), R(-1, 5), R(2, 7), R(1, 9)], [R(-1, 4), R(1, 6), R(-3, 8), R(2, 5)]])
+        for r_, eps_ in ((0, R(-1, 10 ** 9)), (1, R(3, 10 ** 10))):
+            resid[r_, idx[sec]] = eps_
+        ipc = Interp(decide=lambda c: None)
+        outc = to_obj_array(ipc.apply(ipc.getattr(iface, "enforce_section_coordinate"), [resid.copy()], {"section_coord": sec}))
+        okc = outc.shape == (2, 4) and all(S(outc[r, idx[sec]]) == 0 for r in range(2)) and all(S(outc[r, k]) == resid[r, k] for r in range(2) for k in range(4) if k != idx[sec])
+        chk.check(okc, "C14.b", f"{CI}::_CenterManifoldInterface.enforce_section_coordinate[{sec},residual 1e-9]",
+                  f"section {sec}: states with section-coordinate residuals -1e-9 / 3e-10 come back as {outc[:, idx[sec]].tolist()} in that column: not exactly on the section",
+                  sample=f"{sec}: residuals of 1e-9 are set to exactly 0")
+        ip = Interp(decide=lambda c: (False if ("allclose" in str(c) or "isclose" in str(c)) else None))
         out = to_obj_array(ip.apply(ip.getattr(iface, "enforce_section_coordinate"), [states.copy()], {"section_coord": sec}))
         ok = out.shape == (2, 4) and all(S(out[r, idx[sec]]) == 0 for r in range(2)) and all(out[r, k] == states[r, k] for r in range(2) for k in range(4) if k != idx[sec])
         chk.check(ok, "C14.b", f"{CI}::_CenterManifoldInterface.enforce_section_coordinate[{sec}]", f"section {sec}: enforcement zeroes the wrong column or alters others: {out.tolist()}",
